@@ -127,11 +127,20 @@ func VerifHarness_C01_negotiate() {
 	ccfg.ServerName = "a.b"
 
 	// ---- client: ClientHello
+	// (the oracle works on a copy of the configured list taken BEFORE the call: building the hello must not write
+	// into the caller's configuration, which clones share)
+	var cl []uint16
+	if ccfg.CipherSuites != nil {
+		cl = append([]uint16{}, ccfg.CipherSuites...)
+	}
 	cc := verifBareConn(ccfg, true)
 	hello, err := cc.makeClientHello()
 	verifAssert("C01.negotiate.clientHelloBuilt", err == nil && hello != nil)
+	verifAssert("C01.negotiate.configuredSuitesUntouched", (cl == nil) == (ccfg.CipherSuites == nil) && len(cl) == len(ccfg.CipherSuites))
+	for i := 0; i < len(cl) && i < len(ccfg.CipherSuites); i++ {
+		verifAssert("C01.negotiate.configuredSuitesUntouched", cl[i] == ccfg.CipherSuites[i])
+	}
 	// oracle: what the client may offer
-	cl := ccfg.CipherSuites
 	if cl == nil {
 		cl = []uint16{ECC_SM4_GCM_SM3, ECC_SM4_CBC_SM3, ECDHE_SM4_GCM_SM3, ECDHE_SM4_CBC_SM3}
 	}
